@@ -469,6 +469,15 @@ def gen_c07():
                             "intros cfg st c k. unfold g_char, char_step. rewrite tie_kind_is_string. destruct st; cbn. destruct (is_string k); reflexivity."))
 
 
+        PRE = ("intros cfg skipped sel st k st' H. "
+               "cbv delta [new_line trailing_check overflow_check set_line_len should_report_error push_err is_skipped_line ek_is_comment] in H. "
+               "cbv delta [%s g_should_report_error g_push_err g_ek_is_comment is_skipped_line]. cbv beta. "
+               "rewrite ?(tie_kind_is_comment k), ?(tie_kind_is_string k). destruct st as [lws ll cl nc er hs fmt]. cbv beta iota in *. fl_projs. ")
+        out.append("Ltac fl_projs := cbn [last_was_space line_len cur_line newline_count errors has_strlit format_line] in *.\n"
+                   "Ltac fl_cases H := repeat (match type of H with context [if ?c then _ else _] => destruct c end; cbv beta iota zeta in *; fl_projs).\n")
+        out.append(_theorem("tie_new_line", "forall cfg skipped sel st k st', new_line cfg skipped sel st k = Some st' -> g_new_line (error_on_unformatted cfg) (error_on_line_overflow cfg) (max_width cfg) skipped sel st k = st'", U,
+                            PRE % "g_new_line" + "destruct fmt; [| cbv beta iota zeta in *; fl_projs; injection H as <-; reflexivity ]. "
+                            "destruct lws; cbv beta iota zeta in H; fl_projs; cbv beta iota zeta; fl_projs. all: fl_cases H. all: try discriminate H. all: injection H as <-; reflexivity."))
         _write(rel, "\n".join(out))
     except (R.Unsupported, AssertionError, KeyError, IndexError, ValueError) as e:
         _failed(rel, "report_ops", e)
